@@ -377,7 +377,8 @@ def run(ctx, only=None):
             probe('PauliList.__rmul__', lambda: (impl.ops_of(c * impl.plist(Ps)), [int(v) for v in (c * impl.plist(Ps)).ps]),
                   lambda: (t_ops(c * tlist(Ps, n)), [ival(v) for v in (c * tlist(Ps, n)).ps.tolist()]), (c, Ps))
             probe('PauliList.__truediv__', lambda: impl.ops_of(impl.plist(Ps) / c), lambda: t_ops(tlist(Ps, n) / c), (c, Ps))
-        probe('PauliList.__neg__', lambda: impl.ops_of(-impl.plist(Ps)), lambda: t_ops(-tlist(Ps, n)), Ps)
+        probe('PauliList.__neg__', lambda: (impl.ops_of(-impl.plist(Ps)), [int(v) for v in (-impl.plist(Ps)).ps], np.asarray((-impl.plist(Ps)).tokenize()).tolist()),
+              lambda: (t_ops(-tlist(Ps, n)), [ival(v) for v in (-tlist(Ps, n)).ps.tolist()], [[ival(v) for v in row] for row in (-tlist(Ps, n)).tokenize().tolist()]), Ps)
         probe('repr(PauliList)', lambda: repr(1j * impl.plist(Ps)), lambda: repr(1j * tlist(Ps, n)), Ps)
         probe('PauliList.tokenize', lambda: np.asarray((1j * impl.plist(Ps)).tokenize()).tolist(), lambda: [[ival(v) for v in row] for row in (1j * tlist(Ps, n)).tokenize().tolist()], Ps)
     # ---- sums and differences with every operand form the port has (Pauli, PauliList, polynomial), both operand orders
@@ -654,6 +655,106 @@ def run(ctx, only=None):
                 c.take(g)
             return [t_ops(s_) for s_ in c.povm(2)]
         probe('CliffordCircuit.povm', lambda: povm_('py'), lambda: povm_('t'), progp)
+    # ---- third-pass additions: basis states with correlated Z-type generators, regions given as ranges with a step, gates on three
+    #      qubits that share only interior qubits, pairwise anticommuting triples, queries that must not rewrite their argument,
+    #      a gate on the whole register applied to a single operator
+    for _ in range(nx):
+        n = rng.choice([2, 2, 3, 3, 4])
+        ctb = G.rand_css_tableau(rng, n, rng.choice(['Z', 'Z', 'X']))
+        allbits = [[(b_ >> j_) & 1 for j_ in range(n)] for b_ in range(2 ** n)]
+        probe('StabilizerState.get_prob', lambda: [round(float(impl.state(ctb, 0).get_prob(np.array(bs_))), 6) for bs_ in allbits],
+              lambda: [round(float(tstate(ctb, 0).get_prob(torch.tensor(bs_))), 6) for bs_ in allbits], ('css', ctb))
+        n8 = rng.choice([3, 4, 5, 6])
+        rows8, r8 = G.rand_tableau(rng, n8, rng.choice([0, 1, 2]))
+        a8 = rng.randrange(0, n8 - 1); st8 = rng.choice([2, 2, 3, -1, -2]); b8 = rng.randrange(a8 + 1, n8 + 1)
+        rg8 = range(a8, b8, st8) if st8 > 0 else range(b8 - 1, a8 - 1 if a8 > 0 else -1, st8)
+        if len(rg8) > 0:
+            probe('StabilizerState.entropy', lambda: int(impl.state(rows8, r8).entropy(rg8)), lambda: ival(tstate(rows8, r8).entropy(rg8)), ('range', rows8, r8, str(rg8)),
+                  when_pred=lambda a_, b_: 'explained-by-real-rank-in-torch-z2rank' if (not isinstance(b_, str) and _entropy_real_rank(rows8, r8, n8, sorted(rg8)) == b_) else '')
+        # pairwise anticommuting triples (every operator anticommutes with an even number of the others) are still rejected
+        n3 = rng.choice([1, 2, 3])
+        for _try in range(200):
+            tri = [G.rand_herm(rng, n3, nonid=True) for _k in range(3)]
+            if all(O.anticommute(tri[i_], tri[j_]) for i_ in range(3) for j_ in range(i_)):
+                break
+        else:
+            tri = None
+        if tri is not None:
+            pad = rng.randrange(0, 3)
+            tri = [(tuple('I' for _q in range(pad)) + o_[0], o_[1]) for o_ in tri]
+            probe('stabilizer_state(anticommuting list)', lambda: (lambda st: (int(st.r), O.canon_group(impl.ops_of(st)[int(st.r):n3 + pad])[0]))(pc.stabilizer_state(impl.plist(tri, n3 + pad))),
+                  lambda: (lambda st: (int(st.r), O.canon_group(t_ops(st)[int(st.r):n3 + pad])[0]))(tc.stabilizer_state(tlist(tri, n3 + pad))), ('triple', tri))
+        # expect(polynomial whose terms carry phases): the value, the argument afterwards, the value of a second call
+        nq = rng.choice([1, 2, 3])
+        rowsq, rq = G.rand_tableau(rng, nq)
+        termsq = [((G.rand_observable(rng, rowsq, nq, rq)[0][0], rng.randrange(4)), complex(rng.choice([1, -2, 0.5]), rng.choice([0, 1]))) for _k in range(3)]
+        rc2 = lambda z_: (round(complex(z_).real, 4) + 0.0, round(complex(z_).imag, 4) + 0.0)
+
+        def twice(side):
+            pl_ = impl.poly(termsq) if side == 'py' else tpoly(termsq)
+            st_ = impl.state(rowsq, rq) if side == 'py' else tstate(rowsq, rq)
+            v1 = rc2(st_.expect(pl_))
+            after = sorted((k_, rc2(v_)) for k_, v_ in (cmap_of(np.asarray(pl_.gs), np.asarray(pl_.ps), np.asarray(pl_.cs)) if side == 'py' else cmap_of(pl_.gs.tolist(), pl_.ps.tolist(), pl_.cs.tolist())).items())
+            raw = ([int(v) for v in np.asarray(pl_.ps)], [rc2(v) for v in np.asarray(pl_.cs)]) if side == 'py' else ([ival(v) for v in pl_.ps.tolist()], [rc2(v) for v in pl_.cs.tolist()])
+            v2 = rc2(st_.expect(pl_))
+            return v1, after, raw, v2
+        probe('StabilizerState.expect leaves its argument unchanged', lambda: twice('py'), lambda: twice('t'), (rowsq, rq, termsq))
+        # a rotation gate whose generator covers the whole register, applied to a single operator (not a list), forward and backward;
+        # the diagonalizing circuit of an operator applied to the operator itself
+        ng = rng.choice([1, 1, 2, 3])
+        gen_g = (tuple(rng.choice('XYZ') for _q in range(ng)), rng.choice((0, 2)))
+        Pg = G.rand_op(rng, ng)
+        for back in (False, True):
+            def single(side):
+                if side == 'py':
+                    gt = CI.clifford_rotation_gate(impl.pauli(gen_g)); P_ = impl.pauli(Pg)
+                else:
+                    gt = TCI.clifford_rotation_gate(tpauli(gen_g)); P_ = tpauli(Pg)
+                (gt.backward if back else gt.forward)(P_)
+                return impl.ops_of(P_) if side == 'py' else t_ops(P_)
+            probe('CliffordGate.forward(single Pauli)', lambda: single('py'), lambda: single('t'), (gen_g, Pg, back))
+        Pd = G.rand_op(rng, ng, phases=(0, 2), nonid=True)
+        for i0_ in range(ng):
+            def dsingle(side):
+                P_ = impl.pauli(Pd) if side == 'py' else tpauli(Pd)
+                c_ = (CI if side == 'py' else TCI).diagonalize(P_, i0_)
+                Q_ = impl.pauli(Pd) if side == 'py' else tpauli(Pd)
+                c_.forward(Q_)
+                return impl.ops_of(Q_) if side == 'py' else t_ops(Q_)
+            probe('diagonalize(Pauli)', lambda: dsingle('py'), lambda: dsingle('t'), ('single', Pd, i0_))
+    # gates on three qubits of a wider register that share interior qubits only, after a gate the second one is disjoint from
+    for _ in range(nx):
+        n = rng.choice([5, 5, 6])
+        for _try in range(100):
+            T1, T2 = sorted(rng.sample(range(n), 3)), sorted(rng.sample(range(n), 3))
+            if set(T1) & set(T2) and T1[0] != T2[0] and T1[-1] != T2[-1]:
+                break
+        free = [q_ for q_ in range(n) if q_ not in T2]
+        first = [rng.choice(free)] if free else [T1[0]]
+
+        def g3(qs):
+            return dict(kind='gen', qubits=list(qs), gen=(tuple(rng.choice('XYZ') for _q in qs), rng.choice((0, 2))), order=list(qs), via='set')
+        prog3 = [g3(first), g3(T1), g3(T2)] + ([g3(sorted(rng.sample(range(n), 3)))] if rng.random() < 0.5 else [])
+        Qs3 = [G.rand_op(rng, n) for _k in range(4)]
+
+        def run3(side, compiled, back):
+            if side == 'py':
+                c = CI.CliffordCircuit(n)
+                for d in prog3:
+                    c.take(CU.impl_gate(impl, d))
+                lst = impl.plist(Qs3)
+            else:
+                c = TCI.CliffordCircuit(); c.N = n
+                for d in prog3:
+                    g_ = TCI.CliffordGate(*d['qubits']); g_.set_generator(tpauli(d['gen'])); c.take(g_)
+                lst = tlist(Qs3, n)
+            if compiled:
+                c.compile()
+            (c.backward if back else c.forward)(lst)
+            return (impl.ops_of(lst) if side == 'py' else t_ops(lst)), CU.impl_layers(c)
+        for compiled in (False, True):
+            probe('CliffordCircuit.forward(compiled)' if compiled else 'CliffordCircuit.forward', lambda: run3('py', compiled, False), lambda: run3('t', compiled, False), ('three-qubit gates', prog3, Qs3))
+            probe('CliffordCircuit.backward(compiled)' if compiled else 'CliffordCircuit.backward', lambda: run3('py', compiled, True), lambda: run3('t', compiled, True), ('three-qubit gates', prog3, Qs3))
     # ---- regions given as boolean masks (numpy mask for pyclifford, torch mask for the port)
     for _ in range(nx * 3):
         n = rng.choice([2, 3, 4, 4, 5])
@@ -703,9 +804,12 @@ def run(ctx, only=None):
         probe('StabilizerState.density_matrix', dmp, dmt, ('many-generators', n, r, rows))
     # ---- maps with structure: Pauli layers, signed permutations (SWAP / Hadamard layers), wide registers
     def special_map(n):
-        kind = rng.choice(['random', 'pauli-layer', 'signed-permutation', 'identity'])
+        kind = rng.choice(['random', 'pauli-layer', 'signed-permutation', 'identity', 'css', 'css'])
         if kind == 'random':
             return G.rand_map_ops(rng, n)
+        if kind == 'css':            # CNOT / SWAP networks with Pauli signs: X strings to X strings, Z strings to Z strings
+            tb_ = G.rand_css_tableau(rng, n, 'Z')
+            return [(o_[0], 2 * rng.randrange(2)) for k_ in range(n) for o_ in (tb_[n + k_], tb_[k_])]
         rows_ = G.id_map_ops(n)
         if kind == 'signed-permutation':
             perm = list(range(n)); rng.shuffle(perm)
